@@ -636,15 +636,26 @@ Proof.
       rewrite (span_app _ _ _ _ I1). rewrite firstn_app_le by lia. apply firstn_all.
     + rewrite (consume_adv s' ps' (S (length a))) by lia.
       apply (Rb_adv sc0 f0 s' p (S (length a)) I2). lia.
-  - destruct H as (a & I1 & I2 & I3 & I4 & I5 & I6). rewrite I1. cbn [sim].
-    assert (Hrc' : 0 < rc s') by lia.
-    destruct (Rb_adv sc0 f0 s' p (length a) I2 ltac:(lia)) as (A & B & _).
-    split; [|split; [reflexivity|]].
-    + replace st' with (rc s' - 1) by lia. replace ps' with (rc s' + length a) by lia.
-      pose proof (rb_rc _ _ _ _ I2).
-      rewrite slice_cons by lia. rewrite (lastb_nth _ _ _ _ I2 Hrc'). f_equal. rewrite <- B.
-      pose proof (span_app _ _ _ _ I1) as Hsp. rewrite app_nil_r in Hsp. rewrite Hsp. apply firstn_all.
-    + rewrite (consume_adv s' ps' (length a)) by lia. exact A.
+  - destruct H as (a & I1 & I2 & I3 & I4 & I5 & I6). rewrite I1.
+    assert (Hok : sim sc0 (Rb sc0 f0) s (Ok (slice st' ps' (buf s')) 0%N (consume_to s' ps'))
+                      (SOk (last (pre p) 0%N :: a) 0%N (stake (length a) p))).
+    { cbn [sim].
+      assert (Hrc' : 0 < rc s') by lia.
+      destruct (Rb_adv sc0 f0 s' p (length a) I2 ltac:(lia)) as (A & B & _).
+      split; [|split; [reflexivity|]].
+      + replace st' with (rc s' - 1) by lia. replace ps' with (rc s' + length a) by lia.
+        pose proof (rb_rc _ _ _ _ I2).
+        rewrite slice_cons by lia. rewrite (lastb_nth _ _ _ _ I2 Hrc'). f_equal. rewrite <- B.
+        pose proof (span_app _ _ _ _ I1) as Hsp. rewrite app_nil_r in Hsp. rewrite Hsp. apply firstn_all.
+      + rewrite (consume_adv s' ps' (length a)) by lia. exact A. }
+    destruct (done s') eqn:Ed; [exact Hok|].
+    destruct (perr s') eqn:Ep; try exact Hok;
+      (destruct (perr_data _ _ _ _ Hab I2 ltac:(rewrite Ep; discriminate)) as [_ D2];
+       cbn [sim]; split;
+       [ rewrite <- Ep, D2; apply fin_not_bad, (rb_fin _ _ _ _ I2)
+       | intros [F _]; rewrite (rb_fin0 _ _ _ _ HR) in F; rewrite (rb_fin0 _ _ _ _ I2) in D2;
+         assert (Hk : perr s' = KEof) by congruence;
+         rewrite (rb_done2 _ _ _ _ I2 Hk) in Ed; discriminate ]).
   - destruct H as (I1 & I2 & (a & I3)). rewrite I3. cbn [sim]. split; [exact I1|]. intros [F _]. contradiction.
 Qed.
 
